@@ -157,7 +157,7 @@ class DependsWorld:
                         yield {**case, 'cfg': {**cfg, 'methods': cfg['methods'][:i] + [{**m, 'deps': m['deps'][:j] + m['deps'][j + 1:]}] + cfg['methods'][i + 1:]}}
             ops = case['ops']
             for i, op in enumerate(ops):
-                for key in ('n', 'at', 'lvl'):
+                for key in ('n', 'at', 'n1', 'n2'):
                     if op.get(key):
                         yield {**case, 'ops': ops[:i] + [{**op, key: 0}] + ops[i + 1:]}
             return
@@ -372,35 +372,43 @@ class DependsWorld:
         big = tier == 'thorough'
         depth = rng.choice([1, 1, 2, 2, 3])
         leafs = ('x', 'y', 'z')
+        slots = ('sub', 'alt') if rng.random() < 0.6 else ('sub',)
 
         def gen_dep():
             d = rng.randint(1, depth)
+            path = [rng.choice(slots) for _ in range(d)]
             if rng.random() < 0.12:
-                return '.'.join(['sub'] * d) + '.param'
-            return '.'.join(['sub'] * d) + '.' + rng.choice(leafs)
+                return '.'.join(path) + '.param'
+            return '.'.join(path) + '.' + rng.choice(leafs)
         methods = []
         for _ in range(rng.randint(1, 3)):
-            methods.append({'deps': sorted(set(gen_dep() for _ in range(rng.randint(1, 3)))), 'own': rng.random() < 0.2})
+            deps = sorted(set(gen_dep() for _ in range(rng.randint(1, 3))))
+            if rng.random() < 0.4 and len(deps) > 1:
+                rng.shuffle(deps)          # declaration order matters to the grouping
+            methods.append({'deps': deps, 'own': rng.random() < 0.2})
         if 'shared_subobject' in avoid:
             for m in methods:
                 m['deps'] = m['deps'][:1]
-        cfg = {'methods': methods, 'pool': rng.randint(3, 6), 'depth': depth, 'avoid': sorted(avoid),
-               'prebuild': rng.random() < 0.8}
+        cfg = {'methods': methods, 'pool': rng.randint(4, 8), 'depth': depth, 'avoid': sorted(avoid), 'slots': list(slots),
+               'prebuild': rng.random() < 0.85}
         n_ops = min(50 if big else 30, 3 + int(rng.expovariate(1 / (14.0 if big else 9.0))))
         ops = []
-        if cfg['prebuild']:
-            # start from a fully resolved chain P -> N0 -> N1 -> ... so that most transitions are decided
-            for d in range(depth):
-                ops.append({'op': 'attach', 'at': depth - d - 1, 'n': depth - d - 1, 'how': 'any'})
+        hows = [('any', 3), ('equal', 2), ('first', 1.5), ('later', 2)]
         for _ in range(n_ops):
-            k = weighted(rng, [('attach', 6), ('detach', 1.0), ('leaf', 6), ('own', 0.7)])
+            k = weighted(rng, [('attach', 6), ('detach', 1.0), ('leaf', 6), ('leaf2', 1.5), ('swap2', 2 if len(slots) > 1 else 0), ('own', 0.7)])
             if k == 'attach':
-                ops.append({'op': 'attach', 'at': rng.randint(0, cfg['pool']), 'n': rng.randrange(cfg['pool']),
-                            'how': weighted(rng, [('any', 3), ('equal', 2), ('first', 1.5), ('later', 2)])})
+                ops.append({'op': 'attach', 'at': rng.randint(0, cfg['pool']), 'slot': rng.choice(slots), 'n': rng.randrange(cfg['pool']),
+                            'how': weighted(rng, hows)})
             elif k == 'detach':
-                ops.append({'op': 'detach', 'at': rng.randint(0, cfg['pool'])})
+                ops.append({'op': 'detach', 'at': rng.randint(0, cfg['pool']), 'slot': rng.choice(slots)})
             elif k == 'leaf':
                 ops.append({'op': 'leaf', 'n': rng.randrange(cfg['pool']), 'p': rng.choice(leafs), 'same': rng.random() < 0.15})
+            elif k == 'leaf2':
+                ps = rng.sample(leafs, 2)
+                ops.append({'op': 'leaf2', 'n': rng.randrange(cfg['pool']), 'ps': ps, 'same': [p for p in ps if rng.random() < 0.3]})
+            elif k == 'swap2':
+                ops.append({'op': 'swap2', 'at': rng.randint(0, cfg['pool']), 'n1': rng.randrange(cfg['pool']), 'n2': rng.randrange(cfg['pool']),
+                            'how1': weighted(rng, hows), 'how2': weighted(rng, hows)})
             else:
                 ops.append({'op': 'own'})
         return {'cfg': cfg, 'ops': ops}
@@ -410,13 +418,15 @@ class DependsWorld:
         out = Outcome()
         cfg = case['cfg']
         log = []
+        SLOTS = tuple(cfg.get('slots', ['sub']))
 
         class Node(param.Parameterized):
             x = param.Parameter(default=0)
             y = param.Parameter(default=0)
             z = param.Parameter(default=0)
             sub = param.Parameter(default=None)
-        ns = {'own': param.Parameter(default=0), 'sub': param.Parameter(default=None)}
+            alt = param.Parameter(default=None)
+        ns = {'own': param.Parameter(default=0), 'sub': param.Parameter(default=None), 'alt': param.Parameter(default=None)}
         for mi, m in enumerate(cfg['methods']):
             def body(self, _mi=mi):
                 log.append(_mi)
@@ -431,9 +441,11 @@ class DependsWorld:
             return out
         pool = [Node(name='N') for _ in range(cfg['pool'])]
         base = [self.wcount(n) for n in pool]
-        # model: attachment + leaf values
-        sub = {'P': None}
-        sub.update({i: None for i in range(len(pool))})
+        # model: attachment per (holder, slot) + leaf values
+        att = {}
+        for h in ['P'] + list(range(len(pool))):
+            for sl in ('sub', 'alt'):
+                att[(h, sl)] = None
         leaf = [{'x': 0, 'y': 0, 'z': 0} for _ in pool]
         counter = [0]
         poked_detached = False
@@ -442,101 +454,154 @@ class DependsWorld:
         def holder(at):
             return 'P' if at == 0 else (at - 1) % len(pool)
 
+        def real(h):
+            return parent if h == 'P' else pool[h]
+
         def resolve(dep):
-            """Value reached through the current path, or the marker UNRESOLVED."""
             parts = dep.split('.')
             cur = 'P'
-            for _ in parts[:-1]:
-                cur = sub[cur]
+            for sl in parts[:-1]:
+                cur = att[(cur, sl)]
                 if cur is None:
                     return 'UNRESOLVED'
             if parts[-1] == 'param':
-                return ('all', leaf[cur]['x'], leaf[cur]['y'], leaf[cur]['z'], ('node', sub[cur]))
+                return ('all', leaf[cur]['x'], leaf[cur]['y'], leaf[cur]['z'], ('node', att[(cur, 'sub')], att[(cur, 'alt')]))
             return leaf[cur][parts[-1]]
 
-        def attached_set():
-            """every node reachable from the parent by following sub"""
-            seen, cur = set(), sub['P']
-            while cur is not None and cur not in seen:
-                seen.add(cur)
-                cur = sub[cur]
+        def reachable(start='P'):
+            seen, stack = set(), [start]
+            while stack:
+                h = stack.pop()
+                for sl in ('sub', 'alt'):
+                    n = att[(h, sl)]
+                    if n is not None and n not in seen:
+                        seen.add(n)
+                        stack.append(n)
             return seen
 
-        def reaches(h, target):
-            """does following sub from h reach target (cycle guard)"""
-            cur, n = h, 0
-            while cur is not None and n < 10:
-                if cur == target:
-                    return True
-                cur = sub[cur]
-                n += 1
-            return False
+        def shape(n, old, how):
+            """give node n (not reachable from the parent) leaf values relative to the node it replaces; must call nothing"""
+            if old is None or old == n or how == 'any' or n in reachable():
+                return True
+            used = []
+            for m in cfg['methods']:
+                for d in m['deps']:
+                    if d.split('.')[-1] in ('x', 'y', 'z') and d.split('.')[-1] not in used:
+                        used.append(d.split('.')[-1])
+            for p in ('x', 'y', 'z'):
+                leaf[n][p] = leaf[old][p]
+            if how == 'first' and used:
+                counter[0] += 1
+                leaf[n][used[0]] = 1000 + counter[0]
+            elif how == 'later' and len(used) > 1:
+                counter[0] += 1
+                leaf[n][used[-1]] = 1000 + counter[0]
+            del log[:]
+            for p in ('x', 'y', 'z'):
+                setattr(pool[n], p, leaf[n][p])
+            if log:
+                out.violations.append(('C07.silent', 0, f"writing leaves of N{n}, which is not attached under the parent, ran methods {log}"))
+                return False
+            return True
+
+        def snapshot():
+            return [[resolve(d) for d in m['deps']] for m in cfg['methods']]
+
+        def do_attach(h, sl, n):
+            real(h).__setattr__(sl, pool[n])
+
+        # optional: start from fully resolved paths
+        if cfg.get('prebuild'):
+            nxt = [0]
+            try:
+                for m in cfg['methods']:
+                    for d in m['deps']:
+                        cur = 'P'
+                        for sl in d.split('.')[:-1]:
+                            if att[(cur, sl)] is None and nxt[0] < len(pool):
+                                n = nxt[0]
+                                nxt[0] += 1
+                                setattr(real(cur), sl, pool[n])
+                                att[(cur, sl)] = n
+                                ever_attached.add(n)
+                            cur = att[(cur, sl)]
+                            if cur is None:
+                                break
+            except Exception as e:      # noqa
+                out.violations.append(('C07.exception', 0, f"attaching the initial sub-objects raised {type(e).__name__}: {str(e)[:200]}"))
+                return out
+            del log[:]
         states = []
         for step, op in enumerate(case['ops'], 1):
             if out.violations:
                 break
             k = op['op']
-            before = [[resolve(d) for d in m['deps']] for m in cfg['methods']]
             own_changed = False
             desc = k
+            before = snapshot()
             try:
                 if k == 'attach':
                     h = holder(op['at'])
+                    sl = op.get('slot', 'sub')
+                    if sl not in SLOTS:
+                        sl = SLOTS[0]
                     n = op['n'] % len(pool)
-                    if h == n or reaches(n, h) and h != 'P':
+                    if h == n or (h != 'P' and h in reachable(n) | {n}):
                         continue            # no cycles
-                    if h != 'P' and reaches(n, h):
-                        continue
-                    # bias: shape the new node's leaf values relative to the node it replaces
-                    old = sub[h]
-                    how = op.get('how', 'any')
-                    if old is not None and old != n and how != 'any' and n not in attached_set():
-                        leafs_used = sorted({d.split('.')[-1] for m in cfg['methods'] for d in m['deps'] if d.split('.')[-1] in ('x', 'y', 'z')})
-                        for p in ('x', 'y', 'z'):
-                            leaf[n][p] = leaf[old][p]
-                        if how == 'first' and leafs_used:
-                            counter[0] += 1
-                            leaf[n][leafs_used[0]] = 1000 + counter[0]
-                        elif how == 'later' and len(leafs_used) > 1:
-                            counter[0] += 1
-                            leaf[n][leafs_used[-1]] = 1000 + counter[0]
-                        # the node is attached nowhere under the parent: writing its leaves must call nothing
-                        del log[:]
-                        for p in ('x', 'y', 'z'):
-                            setattr(pool[n], p, leaf[n][p])
-                        if log:
-                            out.violations.append(('C07.silent', step, f"writing leaves of N{n}, which is not attached under the parent, ran methods {log}"))
-                            break
+                    if not shape(n, att[(h, sl)], op.get('how', 'any')):
+                        break
                     del log[:]
-                    before = [[resolve(d) for d in m['deps']] for m in cfg['methods']]
-                    target = parent if h == 'P' else pool[h]
-                    target.sub = pool[n]
-                    sub[h] = n
+                    before = snapshot()
+                    setattr(real(h), sl, pool[n])
+                    att[(h, sl)] = n
                     ever_attached.add(n)
-                    desc = f"attach N{n} under {h} ({how})"
+                    desc = f"attach N{n} under {h}.{sl} ({op.get('how')})"
+                elif k == 'swap2':
+                    h = holder(op['at'])
+                    if len(SLOTS) < 2:
+                        continue
+                    n1, n2 = op['n1'] % len(pool), op['n2'] % len(pool)
+                    if n1 == n2 or h in (n1, n2) or (h != 'P' and (h in reachable(n1) or h in reachable(n2))):
+                        continue
+                    if not shape(n1, att[(h, 'sub')], op.get('how1', 'any')) or not shape(n2, att[(h, 'alt')], op.get('how2', 'any')):
+                        break
+                    del log[:]
+                    before = snapshot()
+                    real(h).param.update(sub=pool[n1], alt=pool[n2])
+                    att[(h, 'sub')], att[(h, 'alt')] = n1, n2
+                    ever_attached.update((n1, n2))
+                    out.stats['probe.two_slots_replaced_in_one_batch'] += 1
+                    desc = f"batch-attach N{n1},N{n2} under {h} ({op.get('how1')},{op.get('how2')})"
                 elif k == 'detach':
                     h = holder(op['at'])
-                    if sub[h] is None:
+                    sl = op.get('slot', 'sub')
+                    if att[(h, sl)] is None:
                         continue
                     del log[:]
-                    target = parent if h == 'P' else pool[h]
-                    target.sub = None
-                    sub[h] = None
-                    desc = f"detach under {h}"
-                elif k == 'leaf':
+                    setattr(real(h), sl, None)
+                    att[(h, sl)] = None
+                    desc = f"detach {h}.{sl}"
+                elif k in ('leaf', 'leaf2'):
                     n = op['n'] % len(pool)
-                    if op.get('same'):
-                        v = leaf[n][op['p']]
-                    else:
-                        counter[0] += 1
-                        v = counter[0]
+                    ps = [op['p']] if k == 'leaf' else list(op['ps'])
+                    same = ([op['p']] if op.get('same') else []) if k == 'leaf' else op.get('same', [])
+                    vals = {}
+                    for p in ps:
+                        if p in same:
+                            vals[p] = leaf[n][p]
+                        else:
+                            counter[0] += 1
+                            vals[p] = counter[0]
                     del log[:]
-                    setattr(pool[n], op['p'], v)
-                    leaf[n][op['p']] = v
-                    if n not in attached_set() and n in ever_attached:
+                    if k == 'leaf':
+                        setattr(pool[n], ps[0], vals[ps[0]])
+                    else:
+                        pool[n].param.update(**vals)
+                    leaf[n].update(vals)
+                    if n not in reachable() and n in ever_attached:
                         poked_detached = True
                         out.stats['probe.detached_node_poked'] += 1
-                    desc = f"leaf N{n}.{op['p']}={v}"
+                    desc = f"{k} N{n} {vals}"
                 elif k == 'own':
                     counter[0] += 1
                     del log[:]
@@ -545,7 +610,7 @@ class DependsWorld:
             except Exception as e:      # noqa
                 out.violations.append(('C07.exception', step, f"{desc} raised {type(e).__name__}: {str(e)[:200]}"))
                 break
-            after = [[resolve(d) for d in m['deps']] for m in cfg['methods']]
+            after = snapshot()
             got = list(log)
             del log[:]
             out.log.append(f"{step} {desc} -> calls {got}")
@@ -554,9 +619,10 @@ class DependsWorld:
                 b, a = before[mi], after[mi]
                 n_calls = got.count(mi)
                 unresolved = any(x == 'UNRESOLVED' or y == 'UNRESOLVED' for x, y in zip(b, a))
-                if k in ('attach', 'detach') and any(isinstance(x, tuple) and isinstance(y, tuple) and x[4][1] is not None and y[4][1] is not None
-                                                     for x, y in zip(b, a)):
-                    # 'sub.param' over nodes that themselves hold a node: equality of Parameterized values is unspecified
+                if k in ('attach', 'detach', 'swap2') and any(isinstance(x, tuple) and isinstance(y, tuple) and
+                                                             (x[4][1] is not None or x[4][2] is not None) and (y[4][1] is not None or y[4][2] is not None)
+                                                             for x, y in zip(b, a)):
+                    # '...param' over nodes that themselves hold a node: equality of Parameterized values is unspecified
                     out.stats['dontcare.param_dep_over_node_valued_parameter'] += 1
                     continue
                 changed = (any(x != y for x, y in zip(b, a) if x != 'UNRESOLVED' and y != 'UNRESOLVED') or
@@ -577,18 +643,20 @@ class DependsWorld:
                     break
             if out.violations:
                 break
-            att = attached_set()
+            reach = reachable()
             for n in range(len(pool)):
-                if n not in att:
-                    if self.wcount(pool[n]) != base[n]:
-                        out.violations.append(('C07.leak', step, f"{desc}: N{n} is attached nowhere but carries {self.wcount(pool[n]) - base[n]} watcher(s)"))
-                        break
-            states.append(f"{sorted((str(h), v) for h, v in sub.items() if v is not None)}|{k}")
+                if n not in reach and self.wcount(pool[n]) != base[n]:
+                    out.violations.append(('C07.leak', step, f"{desc}: N{n} is attached nowhere under the parent but carries "
+                                                             f"{self.wcount(pool[n]) - base[n]} watcher(s)"))
+                    break
+            states.append(f"{sorted((str(h), v) for h, v in att.items() if v is not None)}|{k}")
         if poked_detached or any(op['op'] == 'detach' for op in case['ops']):
             out.sig = ','.join(self.skeleton(case))
         shared = any(len({d.rsplit('.', 1)[0] for d in m['deps']}) < len(m['deps']) for m in cfg['methods'])
         if shared:
             out.stats['probe.several_deps_through_one_subobject'] += 1
+        if any(len({d.split('.')[0] for d in m['deps']}) > 1 for m in cfg['methods']):
+            out.stats['probe.dependencies_under_two_root_attributes'] += 1
         out.states = tuple(states)
         return out
 
